@@ -202,14 +202,16 @@ Lemma created_inv C c i : mod_init C c = Created i ->
     i = {| i_mvals := mv; i_params := map (apply_main (main_unit ps)) ps; i_write := writes_of accs;
            i_names := names_of accs; i_enablepoll := c_enablepoll C |}.
 Proof.
-  unfold mod_init. destruct (phaseA C c) as [[mv esA]|]; [|discriminate].
-  destruct (phaseB (mexport mv) (c_params C) c) as [accs|]; [|discriminate].
-  destruct (map_opt finish_param (map a_param accs)) as [ps|]; [|discriminate].
-  destruct (esA ++ flat_map a_errs accs ++ match unknown_names C c with [] => [] | _ :: _ => [ErrUnknown (unknown_names C c)] end) eqn:E.
+  unfold mod_init. destruct (phaseA C c) as [[mv esA]|] eqn:EA; [|discriminate].
+  destruct (phaseB (mexport mv) (c_params C) c) as [accs|] eqn:EB; [|discriminate].
+  destruct (map_opt finish_param (map a_param accs)) as [ps|] eqn:EF; [|discriminate].
+  destruct (unknown_names C c) eqn:EU.
+  2:{ destruct esA; simpl; try discriminate. destruct (flat_map a_errs accs); discriminate. }
+  match goal with |- context [match (esA ++ ?X) with _ => _ end] => destruct (esA ++ X) eqn:E end.
   - apply app_nil3 in E. destruct E as [E1 [E2 E3]].
     destruct (check_module C mv ++ flat_map check_param (map (apply_main (main_unit ps)) ps)) eqn:E4; [|discriminate].
     apply app_eq_nil in E4. destruct E4 as [E4 E5]. intros H. inversion H. subst esA.
-    exists mv, accs, ps. repeat split; try assumption. destruct (unknown_names C c); [reflexivity|discriminate].
+    exists mv, accs, ps. repeat split; try assumption; try reflexivity.
   - discriminate.
 Qed.
 
@@ -269,5 +271,90 @@ Proof.
   pose proof (leaf_setprop_conv _ _ _ _ _ _ E) as Hc. simpl.
   destruct (array_check minlen maxlen x); [|reflexivity]. simpl. destruct (py_iter x); [|reflexivity].
   assert (forall l, map_res (dt_call e') l = map_res (dt_call d) l) as ->; [|reflexivity].
-  induction l; simpl; [reflexivity|]. rewrite Hc, IHl. reflexivity.
+  intros l0. induction l0; simpl; [reflexivity|]. rewrite Hc, IHl0. reflexivity.
+Qed.
+
+(* ------------------------------------------------------------------ what one cfg property can change *)
+Record keeps (p p' : param) : Prop := {
+  k_name : p_name p' = p_name p;
+  k_cmd : p_iscmd p' = p_iscmd p;
+  k_hw : p_has_write p' = p_has_write p;
+  k_wf : p_wfunc p' = p_wfunc p;
+  k_dt : conv_eq (p_dt p) (p_dt p');
+}.
+Lemma keeps_refl p : keeps p p.
+Proof. split; try reflexivity. apply conv_eq_refl. Qed.
+Lemma keeps_trans a b c : keeps a b -> keeps b c -> keeps a c.
+Proof.
+  intros [] []. split; try congruence. eapply conv_eq_trans; eassumption.
+Qed.
+
+Lemma value_is_param_prop : pprop_type param_props k_value <> None.
+Proof. vm_compute. discriminate. Qed.
+
+Ltac fin := repeat split; simpl; intros; try reflexivity; try apply conv_eq_refl; try congruence; try discriminate.
+
+Lemma param_setprop_inv p k v p' : param_setprop p k v = PGo p' ->
+  keeps p p' /\ (str_eqb k k_value = false -> p_value p' = p_value p) /\ (str_eqb k k_value = true -> p_value p' = Some v).
+Proof.
+  unfold param_setprop. destruct (pprop_type param_props k) as [t|] eqn:Ep.
+  - destruct (str_eqb k k_value) eqn:Ev. { intros H; inversion H; subst; fin. }
+    destruct (str_eqb k k_default). { intros H; inversion H; subst; fin. }
+    destruct (mp_validate t v) as [x|]; [|discriminate].
+    destruct (str_eqb k k_readonly). { destruct x; try discriminate; intros H; inversion H; subst; fin. }
+    destruct (str_eqb k k_needscfg). { destruct x; try discriminate; intros H; inversion H; subst; fin. }
+    destruct (str_eqb k k_visibility). { destruct x; try discriminate; intros H; inversion H; subst; fin. }
+    destruct (str_eqb k k_group). { destruct x; try discriminate; intros H; inversion H; subst; fin. }
+    destruct (str_eqb k k_description). { destruct x; try discriminate; intros H; inversion H; subst; fin. }
+    destruct (str_eqb k k_export). { destruct x; try discriminate; intros H; inversion H; subst; fin. }
+    discriminate.
+  - destruct (str_eqb k k_value) eqn:Ev.
+    { apply str_eqb_true in Ev. subst k. exfalso. apply value_is_param_prop. exact Ep. }
+    destruct (p_dt p) as [d|] eqn:Ed.
+    + destruct (dt_setprop d (p_unit p) k v) as [[d' u']|] eqn:Es; [|discriminate].
+      intros H; inversion H; subst. split; [|fin]. split; simpl; try reflexivity. rewrite Ed.
+      intros x. symmetry. eapply dt_setprop_conv. exact Es.
+    + intros H; inversion H; subst. fin.
+Qed.
+
+Lemma prop_step_inv p k v p' : p_iscmd p = false -> prop_step (PGo p) (k, v) = PGo p' ->
+  keeps p p' /\ (str_eqb k k_value = false -> p_value p' = p_value p) /\ (str_eqb k k_value = true -> p_value p' = Some v)
+  /\ (mem_str k checked_value_props = true -> forall d, p_dt p = Some d -> exists c, conv d v = Ok c).
+Proof.
+  intros Hc. unfold prop_step. rewrite Hc.
+  destruct (mem_str k checked_value_props) eqn:Em.
+  - destruct (p_dt p) as [d|] eqn:Ed.
+    + destruct (conv d v) as [c|e] eqn:Ecv.
+      * intros H. apply param_setprop_inv in H. destruct H as [H1 [H2 H3]]. repeat split; try assumption.
+        intros _ d0 Hd. inversion Hd; subst. exists c. exact Ecv.
+      * destruct (is_bad_value e); discriminate.
+    + intros H. apply param_setprop_inv in H. destruct H as [H1 [H2 H3]]. repeat split; try assumption. intros _ d0 Hd. discriminate.
+  - intros H. apply param_setprop_inv in H. destruct H as [H1 [H2 H3]]. repeat split; try assumption. intros; discriminate.
+Qed.
+
+(* the whole entry *)
+Lemma entry_inv : forall en p p1, p_iscmd p = false -> apply_entry_keep p en = (p1, PGo p1) ->
+  keeps p p1 /\
+  (forall k v d, In (k, v) en -> mem_str k checked_value_props = true -> p_dt p = Some d -> exists c, conv d v = Ok c) /\
+  (~ In k_value (map fst en) -> p_value p1 = p_value p) /\
+  (forall v, NoDup (map fst en) -> In (k_value, v) en -> p_value p1 = Some v).
+Proof.
+  induction en as [|[k v] en IH]; intros p p1 Hc H; simpl in H.
+  - inversion H; subst. split; [apply keeps_refl|]. split; [intros ? ? ? []|]. split; [reflexivity|intros ? ? []].
+  - destruct (prop_step (PGo p) (k, v)) as [| |p'] eqn:Es; try (inversion H; discriminate).
+    + inversion H. subst p1. discriminate.
+    + inversion H.
+    + destruct (prop_step_inv _ _ _ _ Hc Es) as [K [V0 [V1 Ck]]].
+      assert (Hc' : p_iscmd p' = false) by (rewrite (k_cmd _ _ K); exact Hc).
+      destruct (IH p' p1 Hc' H) as [K2 [C2 [N2 D2]]].
+      split; [eapply keeps_trans; eassumption|]. split; [|split].
+      * intros k0 v0 d [Heq|Hin] Hm Hd.
+        -- inversion Heq; subst. apply (Ck Hm d Hd).
+        -- pose proof (k_dt _ _ K) as Hq. rewrite Hd in Hq. destruct (p_dt p') as [d'|] eqn:Ed'; [|contradiction].
+           destruct (C2 k0 v0 d' Hin Hm eq_refl) as [c Hcv]. exists c. simpl in Hq. rewrite Hq. exact Hcv.
+      * simpl. intros Hn. rewrite N2; [|intros Hi; apply Hn; right; exact Hi]. apply V0.
+        destruct (str_eqb k k_value) eqn:E; [|reflexivity]. apply str_eqb_true in E. subst. exfalso. apply Hn. left. reflexivity.
+      * intros v0 ND [Heq|Hin].
+        -- inversion Heq; subst. simpl in ND. inversion ND; subst. rewrite N2; [|assumption]. apply V1. apply str_eqb_refl'.
+        -- simpl in ND. inversion ND; subst. apply D2; assumption.
 Qed.
